@@ -68,7 +68,7 @@ def run(tier: str) -> int:
         ok, mdl = S.valid(assumptions, claim, 'C14 ' + name, cross=cross)
         chk.obligation(name, 'unsat' if ok else 'sat')
         if not ok:
-            findings.append((name, mdl, on_fail))
+            findings.append((name, mdl, on_fail, assumptions, claim))
         return ok
 
     # ------------------------------------------------------------------ A: presize / with_capacity
@@ -95,8 +95,8 @@ def run(tier: str) -> int:
         oblige('presize#%d: bins <= 2^30' % i, pc, z3.ULE(n, bv(MAXCAP)), ('cap', size, n))
         oblige('presize#%d: bins >= 1.5*c+1 unless capped at 2^30' % i, pc, z3.Or(n == bv(MAXCAP), z3.And(z3.ULT(size, bv(MAXCAP // 2)), z3.UGE(n, want))), ('cap', size, n))
         oblige('presize#%d: bins is the least such power of two' % i, pc, z3.Or(z3.UGE(size, bv(MAXCAP // 2)), z3.ULT(z3.LShR(n, 1), want), n == 1), ('cap', size, n))
-        oblige('presize#%d: c entries fit below the growth threshold (c <= 0.75*bins) for c <= 0.75*2^30' % i, pc,
-               z3.Implies(z3.ULE(size, bv(MAXCAP - MAXCAP // 4)), z3.ULE(size, n - z3.LShR(n, 2))), ('cap', size, n))
+        oblige('presize#%d: c entries stay below the growth threshold (c < 0.75*bins) for c < 0.75*2^30' % i, pc,
+               z3.Implies(z3.ULT(size, bv(MAXCAP - MAXCAP // 4)), z3.ULT(size, n - z3.LShR(n, 2))), ('cap', size, n))
     for i, o in enumerate(stores):
         # the threshold published is 0.75 * (the length passed to Table::new on the same path)
         prev = [eng.obs[j] for j in o.trail if eng.obs[j].kind == 'call' and eng.obs[j].name.endswith('Table::new')]
@@ -107,7 +107,7 @@ def run(tier: str) -> int:
         ok, mdl = S.satisfiable(o.pc, 'C14 presize panic#%d reachable?' % i)
         chk.obligation('presize: no panic for any capacity (%s @ %s)' % (o.name[:50], o.span), 'unsat' if not ok else 'sat')
         if ok:
-            findings.append(('presize panics: %s' % o.name, mdl, ('cap', size, None)))
+            findings.append(('presize panics: %s' % o.name, mdl, ('cap', size, None), o.pc, z3.BoolVal(False)))
     # with_capacity(0) allocates nothing
     f2 = prog.get('map::HashMap::with_capacity_and_hasher')
     chk.encoded(f2)
@@ -157,7 +157,8 @@ def run(tier: str) -> int:
     eng.cells['table'] = S.Ptr(tab0, 'table')
     eng.cell_ty['table'] = 'ptr'
     tl = eng.table_len
-    inv = [z3.Implies(tab0 == 0, sc0 == 0), z3.Implies(tab0 != 0, z3.And(is_pow2(tl(tab0)), z3.ULE(tl(tab0), bv(MAXCAP))))]
+    inv = [z3.Implies(tab0 == 0, sc0 == 0), z3.Implies(tab0 != 0, z3.And(is_pow2(tl(tab0)), z3.ULE(tl(tab0), bv(MAXCAP)))),
+           z3.Implies(z3.And(tab0 != 0, sc0 >= 0), sc0 == tl(tab0) - z3.LShR(tl(tab0), 2))]
     obs = eng.run(f, [self_ptr(), S.Int(size, 'usize'), guard_ptr()], inv)
     nstates += eng.steps
     news = [o for o in obs if o.kind == 'call' and o.name.endswith('Table::new')]
@@ -183,8 +184,8 @@ def run(tier: str) -> int:
             continue
         # returned without (or after) own work and without havoc: the request is satisfied by the cells as they are now
         cells = eng  # final cells are not kept per obs; use the path condition, which contains the exit test on the loaded values
-        oblige('try_presize ret#%d: returns only if resizing elsewhere, at max length, or threshold >= request' % i, o.pc + [z3.ULT(size, bv(MAXCAP // 2)), tab0 != 0],
-               z3.Or(sc0 < 0, z3.UGE(tl(tab0), bv(MAXCAP)), z3.ULE(size, sc0)), ('reserve', size, None))
+        oblige('try_presize ret#%d: returns only if resizing elsewhere, at max length, or the request stays below the growth threshold (c < size_ctl)' % i, o.pc + [z3.ULT(size, bv(MAXCAP // 2)), tab0 != 0],
+               z3.Or(sc0 < 0, z3.UGE(tl(tab0), bv(MAXCAP)), z3.ULT(size, sc0)), ('reserve', (size, sc0, tl(tab0)), None))
     # reserve(additional) asks for len()+additional
     f = prog.get('map::HashMap::reserve')
     chk.encoded(f)
@@ -333,17 +334,104 @@ fn main() {
             for k in 0..extra as u64 { m.insert(k, 0, &g); }
             println!("reserve a={} bins={} bins_after={}", extra, bins, vi::table_len(&m));
         }
+        // reserve on an initialised table: L-bin table (requested capacity `cap`), `pre` entries, reserve(a), then a inserts
+        "reserve2" => {
+            let cap: usize = a[1].parse().unwrap();
+            let pre: u64 = a[2].parse().unwrap();
+            let add: u64 = a[3].parse().unwrap();
+            let m: HashMap<u64, u8, Ident> = HashMap::with_capacity_and_hasher(cap, Ident);
+            let g = m.guard();
+            for k in 0..pre { m.insert(k, 0, &g); }
+            let b0 = vi::table_len(&m);
+            m.reserve(add as usize, &g);
+            let b1 = vi::table_len(&m);
+            for k in pre..pre + add { m.insert(k, 0, &g); }
+            println!("reserve2 bins0={} pre={} add={} bins_after_reserve={} bins_after_inserts={}", b0, pre, add, b1, vi::table_len(&m));
+        }
+        // 12 keys with distinct hashes that share bin 0 in tables of 16..256 bins
+        "treeify" => {
+            for cap in [6usize, 12, 24, 48, 96] {
+                let m: HashMap<u64, u8, Ident> = HashMap::with_capacity_and_hasher(cap, Ident);
+                let g = m.guard();
+                let b0 = vi::table_len(&m);
+                let mut tree_in_short_table = false;
+                for i in 1..=12u64 {
+                    m.insert(i << 20, 0, &g);
+                    let has_tree = vi::dump(&m).iter().any(|l| l.contains(" T "));
+                    if has_tree && vi::table_len(&m) < 64 { tree_in_short_table = true; }
+                }
+                let has_tree = vi::dump(&m).iter().any(|l| l.contains(" T "));
+                println!("treeify bins0={} bins_after={} has_tree={} tree_in_short_table={}", b0, vi::table_len(&m), has_tree, tree_in_short_table);
+            }
+        }
         _ => {}
     }
 }
 '''
 
 
+def cap_for_bins(L: int) -> int:
+    """a requested capacity for which the specification yields L bins"""
+    for c in range(1, L + 1):
+        want = c + c // 2 + 1
+        n = 1
+        while n < want:
+            n <<= 1
+        if n == L:
+            return c
+    return 1
+
+
+def small_model(assumptions, claim, extra):
+    """re-solve the failing obligation with size bounds that make a native replay possible"""
+    s = z3.Solver()
+    for a in assumptions:
+        s.add(a)
+    s.add(z3.Not(claim))
+    for e in extra:
+        s.add(e)
+    if C.check(s, 'C14 small witness') == 'sat':
+        return s.model()
+    return None
+
+
 def confirm(chk, findings):
     """native replay of the solver's witnesses.  A witness that does not reproduce is an encoder defect (exit 2)."""
-    for name, mdl, info in findings:
+    for name, mdl, info, assumptions, claim in findings:
         kind = info[0] if info else None
         try:
+            if kind == 'reserve' and isinstance(info[1], tuple):
+                size, sc0, L = info[1]
+                m2 = small_model(assumptions, claim, [z3.ULE(L, bv(1 << 16)), z3.UGE(L, bv(2)), z3.ULE(size, bv(1 << 16))]) or mdl
+                Lv = m2.eval(L, model_completion=True).as_long()
+                sv = m2.eval(size, model_completion=True).as_long()
+                if Lv > (1 << 16) or sv > (1 << 17) or Lv < 2:
+                    chk.inconclusive.append('witness for `%s` is too large to replay (bins=%d size=%d)' % (name, Lv, sv))
+                    continue
+                pre = min(2, sv)
+                p = native.run_program('c14', REPLAY, ['reserve2', str(cap_for_bins(Lv)), str(pre), str(sv - pre)], release=True)
+                m = re.search(r'reserve2 bins0=(\d+) pre=(\d+) add=(\d+) bins_after_reserve=(\d+) bins_after_inserts=(\d+)', p.stdout)
+                if not m:
+                    chk.inconclusive.append('replay of %s failed: %s' % (name, p.stderr[-500:]))
+                    continue
+                b0, pre_, add_, b1, b2 = map(int, m.groups())
+                desc = 'obligation `%s` fails; solver witness: %d bins, reserve brings the total to %d; native: %d bins, %d entries, reserve(%d) -> %d bins, after the %d reserved inserts -> %d bins' % (
+                    name, Lv, sv, b0, pre_, add_, b1, add_, b2)
+                if b2 != b1:
+                    chk.violation('reserve-then-grows', desc, REPLAY, 'reserve.rs')
+                else:
+                    chk.inconclusive.append('witness for `%s` did not reproduce natively (%s)' % (name, m.group(0)))
+                continue
+            if kind == 'treeify':
+                p = native.run_program('c14', REPLAY, ['treeify'], release=True)
+                rows = re.findall(r'treeify bins0=(\d+) bins_after=(\d+) has_tree=(\S+) tree_in_short_table=(\S+)', p.stdout)
+                bad = [r for r in rows if (int(r[0]) >= 64 and int(r[1]) != int(r[0])) or r[3] == 'true' or (r[2] == 'true' and int(r[1]) < 64)]
+                desc = 'obligation `%s` fails; native (12 keys with distinct hashes sharing one bin): %s' % (name, rows)
+                if bad:
+                    chk.violation('overfull-bin-threshold', desc, REPLAY, 'treeify.rs')
+                else:
+                    chk.inconclusive.append('witness for `%s` did not reproduce natively (%s)' % (name, rows))
+                continue
             if kind == 'cap':
                 c = mdl.eval(info[1], model_completion=True).as_long()
                 if c > (1 << 22):
